@@ -221,10 +221,23 @@ impl Compiler {
         Ok(chunk)
     }
 
-    /// Compile a sequence of statements
-    fn compile_statements(&mut self, statements: &[crate::ast::Statement]) -> Result<(), JsError> {
+    /// Compile a sequence of statements.
+    ///
+    /// Function declarations are hoisted: they are instantiated before any other statement
+    /// of the list runs, so that calls textually preceding the declaration work.
+    pub(crate) fn compile_statements(
+        &mut self,
+        statements: &[crate::ast::Statement],
+    ) -> Result<(), JsError> {
         for stmt in statements {
-            self.compile_statement_impl(stmt)?;
+            if matches!(stmt, crate::ast::Statement::FunctionDeclaration(_)) {
+                self.compile_statement_impl(stmt)?;
+            }
+        }
+        for stmt in statements {
+            if !matches!(stmt, crate::ast::Statement::FunctionDeclaration(_)) {
+                self.compile_statement_impl(stmt)?;
+            }
         }
         Ok(())
     }
